@@ -6,6 +6,7 @@ import numpy as np
 import common as C
 import gen as G
 import verde as vd
+from props import large as L
 from moment import PolyGridder
 
 ID = "C05"
@@ -96,6 +97,15 @@ ONE = [[0.0, 2.0, 1000.0, 0.125]]
 
 
 def corpus():
+    return _corpus() + [L.case("predict_in_pieces", ["spline", 131075, 1, "float64"], "corpus-large-queries"),
+                       L.case("predict_in_pieces", ["spline", 65536 * 3, 2, "float64"], "corpus-large-queries"),
+                       L.case("grid_in_pieces", [[331, 401], 1], "corpus-large-grid"),
+                       L.case("grid_in_pieces", [[256, 512], 2], "corpus-large-grid"),
+                       L.case("predict_in_pieces", ["knn", 70001, 5, "float64"], "corpus-large-queries"),
+                       L.case("predict_in_pieces", ["linear", 66001, 6, "float64"], "corpus-large-queries")]
+
+
+def _corpus():
     e, n = [1.0, 2.0, 4.0], [10.0, 20.0]
     E, N = [list(e) for _ in n], [[y] * 3 for y in n]
     up = [[7.0, 7.5, 8.0], [9.0, 9.5, 10.0]]
@@ -342,6 +352,9 @@ def _table_out(t):
 
 
 def impl(case):
+    if case["fn"] == "large":
+        r = C.call(L.run, case["args"])
+        return r if C.is_err(r) else ["large", r]
     a = case["args"]
     fn = case["fn"]
     with warnings.catch_warnings():
@@ -427,6 +440,8 @@ def impl(case):
 
 
 def compare(case, io, mo):
+    if case["fn"] == "large":
+        return "diff:implementation failed: " + io[1] if C.is_err(io) else "ok"
     if case["fn"] in ("real", "fitted") or case.get("kind", "").endswith("-nonlinear"):
         return "ok"      # fitted gridders / non-rational projections: decided by the oracle on the implementation
     r = C.std_compare(io, mo, tol=1e-9)
@@ -446,6 +461,8 @@ def _poly(coefs, k, e, n):
 
 
 def oracle(case, io):
+    if case["fn"] == "large":
+        return (io[1] or None) if not C.is_err(io) else "failed on a large input: " + io[1]
     a = case["args"]
     fn = case["fn"]
     if fn == "real":
@@ -577,6 +594,8 @@ def oracle(case, io):
 
 
 def nontrivial(case, io):
+    if case["fn"] == "large":
+        return not C.is_err(io)
     if case["fn"] in ("real", "fitted"):
         return (not C.is_err(io)) and io[1]["ncells"] >= 2
     return (not C.is_err(io)) and len(C.flat(io)) >= 6
